@@ -828,6 +828,7 @@ func runC09(w *World, r *Report) {
 	errorsNotDiscarded(w, r, "C09")
 	c09SiblingIndependence(w, r, "C09")
 	c10TokenTextNotAFormat(w, r, "C09", nil, nil)
+	c09TokenTextNotSubstituted(w, r, "C09")
 	c09CommentDelivery(w, r)
 	fmtCommentEndsLine(w, r, "C09")
 	r.assume("comments are only recoverable through hidden-channel queries at adjacent default-channel tokens (LINE_COMMENT -> channel(HIDDEN))")
